@@ -161,7 +161,14 @@ func (c *Client) Start(ctx context.Context) {
 
 func (c *Client) handleIncomingDelegation(ctx context.Context, link *protocol.Link, delegation net.Conn) error {
 	hostname := link.GetHostname()
+	// route lookup and proxy creation must see one configuration
+	c.configMu.RLock()
 	u, ok := c.Configuration.router.Load(hostname)
+	var proxy *httpProxy
+	if ok && link.GetAlpn() == protocol.Link_HTTP {
+		proxy = c.getHTTPProxy(ctx, hostname, u)
+	}
+	c.configMu.RUnlock()
 	if !ok {
 		c.Logger.Error("Unknown hostname in connection", zap.String("hostname", hostname))
 		delegation.Close()
@@ -175,7 +182,7 @@ func (c *Client) handleIncomingDelegation(ctx context.Context, link *protocol.Li
 
 	switch link.GetAlpn() {
 	case protocol.Link_HTTP:
-		c.getHTTPProxy(ctx, hostname, u).acceptor.Handle(delegation)
+		proxy.acceptor.Handle(delegation)
 
 	case protocol.Link_TCP:
 		c.forwardStream(ctx, hostname, delegation, u)
